@@ -215,6 +215,7 @@ func (r Rule) Apply(facts *FactSet, newFacts *FactSet, syms *SymbolTable) error 
 	combinations := combine(variables, r.Body, r.Expressions, facts, syms)
 
 	for res := range combinations {
+		simYield("apply.recv")
 		if res.error != nil {
 			return res.error
 		}
@@ -363,18 +364,22 @@ func (w *World) Run(syms *SymbolTable) error {
 	defer cancel()
 
 	go func() {
+		simYield("run.start")
 		for i := 0; i < w.runLimits.maxIterations; i++ {
+			simYield("run.iter")
 			select {
 			case <-ctx.Done():
 				return
 			default:
 				var newFacts FactSet
 				for _, r := range w.rules {
+					simYield("run.rule")
 					select {
 					case <-ctx.Done():
 						return
 					default:
 						if err := r.Apply(w.facts, &newFacts, syms); err != nil {
+							simYield("run.done")
 							done <- err
 							return
 						}
@@ -386,17 +391,20 @@ func (w *World) Run(syms *SymbolTable) error {
 
 				newCount := len(*w.facts)
 				if newCount >= w.runLimits.maxFacts {
+					simYield("run.done")
 					done <- ErrWorldRunLimitMaxFacts
 					return
 				}
 
 				// last iteration did not generate any new facts, so we can stop here
 				if newCount == prevCount {
+					simYield("run.done")
 					done <- nil
 					return
 				}
 			}
 		}
+		simYield("run.done")
 		done <- ErrWorldRunLimitMaxIterations
 	}()
 
@@ -500,6 +508,7 @@ func combine(variables MatchedVariables, predicates []Predicate, expressions []E
 		error
 	}) {
 		defer close(c)
+		simYield("combine.start")
 
 		current := 0
 		indexes := make([]int, len(predicates))
@@ -569,6 +578,7 @@ func combine(variables MatchedVariables, predicates []Predicate, expressions []E
 						res, err := e.Evaluate(complete_vars, syms)
 						if err != nil {
 							fmt.Printf("expression error: %+v", err)
+							simYield("combine.send")
 							c <- struct {
 								MatchedVariables
 								error
@@ -584,6 +594,7 @@ func combine(variables MatchedVariables, predicates []Predicate, expressions []E
 
 					if valid {
 						//fmt.Printf("sending valid variables %+v\n", complete_vars)
+						simYield("combine.send")
 						c <- struct {
 							MatchedVariables
 							error
